@@ -43,6 +43,9 @@ CHECKS = {
  "C05": dict(level="exploration", design="§4 C05",
    text="Placement monitoring with guard pages: every input (block sweeps of 6 document shapes and plain strings x length x position x 16 special byte groups, every prefix of seeded documents, seeded random/mutated documents, raw strings up to 9000 bytes, escape bodies, number literals) is run, without copying, through ~45 byte-consuming entry points (validation, decoding into 10 destination kinds under 3 configs, Skip, Get with 7 paths, ast load/search/walk/Preorder, Marshal of RawMessage/Number; Quote, unquote, HTMLEscape, utf8.*, Marshal of string/map key/[]byte/`,string`) on a heap copy and on the same bytes ending exactly at a PROT_NONE page, starting exactly after one, at 4 offsets from a 64-byte boundary followed by continuations that would change the result if read, and 1-40 bytes before a PROT_NONE page with such a fill. The per-API outcome (error class, position, hash of the error text, value digest) must be identical in all placements; an out-of-bounds read next to a guard page is a SIGSEGV that kills the worker, which the orchestrator reports with the input recorded just before. Runs under the AVX2 table, the SSE table and optdec. Two native over-reads found this way are open findings (B42, B43).",
    technique="sanitizer-style runtime monitoring with mmap/mprotect guard pages + placement-invariance oracle (same-process differential over placements)"),
+ "C06": dict(level="exploration", design="§4 C06",
+   text="Three runtime monitors over seeded histories. (1) Ownership ledger: 4 goroutines per round keep calling 9 encoding entry points (values whose output sizes sit around the 4 KiB initial buffer and on both sides of option.LimitBufferSize, which decides whether a buffer returns to a pool), Unmarshal, ast MarshalJSON/Raw/String, Quote and HTMLEscape; every returned slice/string is recorded with a checksum at return time and re-read in later rounds (12 MiB quick / 48 MiB thorough held per goroutine): a changed checksum means a later call wrote into memory already handed out; a race-detector build of the same workload reports the write when it happens; repeated encodings of the same value must give the same bytes (pool-state independence). (2) Caller buffers with guard pages: EncodeInto / HTMLEscape / utf8.CorrectWith get a destination whose spare capacity (0..72, and +-3 around len/2, len-64, len-32, len, 2*len, 4096) ends exactly at a PROT_NONE page with dirty prior contents and an optional prefix: the result must be prefix+Encode(v) for every capacity and any write outside the capacity faults. (3) Input overwrite: after Unmarshal([]byte) (7 configurations x 2 destination shapes), UnmarshalFromString under CopyString over caller-owned memory, sonic.Get([]byte), GetCopyFromString and GetWithOptions(CopyReturn) over 8 paths, the caller scribbles over its buffer: the decoded values / located nodes must not change. Runs: default pools, lowered LimitBufferSize, VM encoder, SSE table, optdec, race build.",
+   technique="runtime monitors: checksum ledger over returned memory under concurrent pool churn + Go race detector; mmap/mprotect guard pages behind caller buffers; input-overwrite differential"),
  "C18": dict(level="exploration", design="§4 C18",
    text="Metamorphic runtime monitoring of the 16 Config switches: for a switch S and a random setting R of the 15 others, the same value/document is run with R and R+S in the same process and the difference must be exactly S's documented effect (EscapeHTML == json.HTMLEscape(out_R); SortMapKeys reorders members only; NoNullSliceOrMap == out_R of the value with nil containers made empty; ValidateString == UTF-8-corrected out_R / decode of the corrected document; EncodeNullForInfOrNan via a sentinel; CompactMarshaler changes no token; marshaler switches inert on marshaler-free types; NoEncoderNewline removes only the stream newline; UseInt64/UseNumber change only interface{} numbers; CopyString/NoValidateJSONSkip inert on valid documents; DisallowUnknownFields agrees with encoding/json on which documents have unknown keys; UseUnicodeErrors inert without lone surrogates and reporting with them; CaseSensitive == encoding/json on the exact-key-filtered document), plus entry-point equivalence (encoder.Encode/EncodeInto/MarshalToString/MarshalIndent/stream encoder vs Froze().Marshal; decoder.Decoder+SetOptions/UnmarshalFromString vs Froze().Unmarshal). Runs in a JIT process and a VM-encoder+optdec process; per-switch 'fired' counters show the switch had something to act on.",
    technique="metamorphic runtime monitor (single-switch relations with encoding/json post-processors as oracles) + entry-point equivalence, seeded over types/values/documents/other switches"),
